@@ -31,7 +31,7 @@ EXPLANATION = (
     ' '
     'R-C13.8 the hint text reaches stdout / the evolution file with nothing but whitespace trimming applied.'
     ' '
-    'R-C13.9 Diff.evolution and ModelMutator.change_meta build the per-index dictionaries (compared by repr in the backend) in the same key order.')
+    'R-C13.10 change_meta_indexes looks the per-index dictionaries up under an order-insensitive key (R-C13.9, sibling key order of the two producers, was withdrawn once fix d79d704 made the order irrelevant).')
 NOT_DECIDED = (
     'Semantic equality of the re-loaded mutations (same signature change, '
     'same SQL) for all values; validity of the rendered Python for every '
@@ -837,7 +837,7 @@ def _index_dict_order(fn_node):
     return None, None
 
 
-def r9_index_dict_producers_agree(ctx):
+def r9_index_dict_producers_agree(ctx):   # withdrawn, see DESIGN (C13)
     """change_meta_indexes() decides which indexes to drop / create by
     comparing repr() of the per-index dictionaries of the old value (built
     by ModelMutator.change_meta from the signature) and of the mutation's new
@@ -911,7 +911,6 @@ def r10_index_dicts_compared_order_insensitively(ctx, rule_id='R-C13.10'):
 
 def run(ctx):
     r10_index_dicts_compared_order_insensitively(ctx)
-    r9_index_dict_producers_agree(ctx)
     r8_hint_text_reaches_output_verbatim(ctx)
     r1_import_closure(ctx)
     r2_q_total(ctx)
